@@ -511,7 +511,7 @@ pub fn run(ctx: &Ctx) -> i32 {
     let exh = wl.max_exhaustive;
     acc.finish(
         "exploration",
-        &format!("all import digraphs on <= {exh} modules including self loops (exhaustive), random graphs on 2..8 modules with duplicate use lines, four spellings of the same file and missing targets; module bodies use their imports (values and functions) so compile order is observable; each load recorded on an in-memory Loader delegating to the real parse/compile and checked offline; each graph also re-run with permuted, re-spelled use lines; non-trivial = at least two reachable modules; distinct by edge list"),
+        &format!("all import digraphs on <= {exh} modules including self loops (exhaustive), random graphs on 2..8 modules with duplicate use lines, four spellings of the same file and missing targets; module bodies use their imports (values and functions) so compile order is observable; each load recorded on an in-memory Loader delegating to the real parse/compile and checked offline; each graph also re-run with permuted, re-spelled use lines; plus recorded language-server sessions over C15's histories (no fresh server): the error the library pipeline locates in the current texts must be among the diagnostics published for the document of its module, with exactly the range of its span in the client's text; non-trivial = at least two reachable modules; distinct by edge list"),
         if ctx.quick() { 300 } else { 3000 },
         false,
         &["events carry a logical sequence number (log position), no clocks"],
